@@ -37,7 +37,7 @@ ASSUMPTIONS = [
     "the pristine process is forked from a zygote that imported flox and JIT-warmed numbagg directly but never called flox",
     "sampled histories, not all finite sequences",
 ]
-PROBES = ["xarray_rechunk_helper", "reindex_object_reused", "eager_call", "merged_pair", "merged_triple", "merged_dataset_variables", "clock_fault", "cache_cleared", "cache_resized",
+PROBES = ["labels_2d_and_transposed_view", "xarray_rechunk_helper", "reindex_object_reused", "eager_call", "merged_pair", "merged_triple", "merged_dataset_variables", "clock_fault", "cache_cleared", "cache_resized",
           "parts_cache_cleared", "memo_hit_after_same_call", "custom_aggregation_reused", "rechunk_helper", "scan",
           "ingredient_array", "ingredient_labels", "ingredient_func", "ingredient_ddof", "ingredient_min_count",
           "ingredient_fill_value", "ingredient_dtype", "ingredient_method", "ingredient_engine", "ingredient_sort",
@@ -140,6 +140,14 @@ def gen(tape: Tape, tier: str) -> dict:
     if (sorted2 == sorted_codes).all():
         sorted2 = (sorted2.max() - sorted2)[::-1].copy()
     labels = [codes0.astype("i8"), codes1.astype("i8"), sorted_codes.astype("i8"), sorted2.astype("i8")]
+    # 2-D square labels and their transposed (non-contiguous) view: arrays[3], labels[4], labels[5]
+    k2 = tape.randint("gen.k2", 2, 3)
+    m2 = np.array([[tape.draw("gen.m2", 3) for _ in range(k2)] for _ in range(k2)], dtype="i8")
+    if (m2 == m2.T).all():
+        m2[0, k2 - 1] = (m2[k2 - 1, 0] + 1) % 3
+    a2d = gen_values(tape, k2 * k2, dtype="f8").reshape(k2, k2)
+    arrays.append(a2d)
+    labels.append(m2)
     base_chunks = gen_chunks(tape, n, max_blocks=5)
     nops = tape.randint("gen.nops", 3, 8)
     ops = []
@@ -237,7 +245,7 @@ def gen(tape: Tape, tier: str) -> dict:
     fault_kinds = set()
     ingredient = None
     while len(ops) < nops:
-        r = tape.draw("gen.optype", 13)
+        r = tape.draw("gen.optype", 14)
         if r < 4 or not handles:
             call = base_call()
             ops.append(call)
@@ -282,6 +290,14 @@ def gen(tape: Tape, tier: str) -> dict:
         elif r == 8 and len(handles) >= 2:
             k = 3 if len(handles) >= 3 and tape.chance("gen.triple2", 0.3) else 2
             ops.append({"op": "compute", "handles": tape.shuffle("gen.pick", handles)[:k]})
+        elif r == 13:
+            # the same call on a 2-D label array and on its transposed view (equal content tokens for square arrays)
+            for which in tape.shuffle("gen.2d.order", [4, 5]):
+                ops.append({"op": "call", "api": "groupby_reduce", "arr": 3, "lab": which,
+                            "chunks": [[k2], tape.choice("gen.2d.chunks", [[k2], [1] * k2])],
+                            "kwargs": enc_value({"func": tape.choice("gen.2d.func", ["sum", "nanmax", "count"]),
+                                                 "expected_groups": np.arange(3), "fill_value": 0}),
+                            **({"eager": True} if tape.chance("gen.2d.eager", 0.5) else {})})
         elif r == 9:
             mode = tape.choice("gen.clock", ["frozen", "backward", "jumpy", "normal"])
             ops.append({"op": "clock", "mode": mode})
@@ -292,7 +308,7 @@ def gen(tape: Tape, tier: str) -> dict:
             fault_kinds.add(what)
     return {
         "kind": "history",
-        "pool": {"arrays": [enc_array(a) for a in arrays], "labels": [enc_array(l) for l in labels]},
+        "pool": {"arrays": [enc_array(a) for a in arrays], "labels": [enc_array(l) for l in labels] + [{"view_of": 4}]},
         "ops": ops,
         "knobs": swarm_knobs(tape, len(base_chunks)),
         "meta": {"ingredient": ingredient},
@@ -302,6 +318,19 @@ def gen(tape: Tape, tier: str) -> dict:
 # ---------------------------------------------------------------------------
 # executing one call
 # ---------------------------------------------------------------------------
+
+
+def decode_pool(pool):
+    """arrays, labels (label entries may be views of other entries: a transposed, non-contiguous view
+    has the same content token as its C-contiguous twin when the array is square)."""
+    arrays = [dec_array(a) for a in pool["arrays"]]
+    labels = []
+    for l in pool["labels"]:
+        if isinstance(l, dict) and "view_of" in l:
+            labels.append(labels[l["view_of"]].T)
+        else:
+            labels.append(dec_array(l))
+    return arrays, labels
 
 
 def _decode_kwargs(enc, user_aggs):
@@ -412,8 +441,7 @@ def _compute_sync(out):
 def pristine_eval(req):
     """Runs in a grandchild of the zygote: first flox call of the process."""
     pool, op = req
-    arrays = [dec_array(a) for a in pool["arrays"]]
-    labels = [dec_array(l) for l in pool["labels"]]
+    arrays, labels = decode_pool(pool)
     try:
         out = do_call(arrays, labels, op, {})
         return ("value", _compute_sync(out))
@@ -465,8 +493,7 @@ def run(case, tape: Tape, ctx):
     if _REGISTRY0 is None:
         warmup()
     _reset_known_state()
-    arrays = [dec_array(a) for a in case["pool"]["arrays"]]
-    labels = [dec_array(l) for l in case["pool"]["labels"]]
+    arrays, labels = decode_pool(case["pool"])
     user_aggs: dict = {}
     arg_digests = {("arr", i): digest(a) for i, a in enumerate(arrays)}
     arg_digests.update({("lab", i): digest(l) for i, l in enumerate(labels)})
@@ -538,6 +565,7 @@ def run(case, tape: Tape, ctx):
                         raise Violation(cls, f"op {i} {op['api']}: {msg}", **det)
                     ncalls += 1
                     ctx.probe("eager_call", bool(op.get("eager")))
+                    ctx.probe("labels_2d_and_transposed_view", op.get("lab") == 5)
                     ctx.probe("reindex_object_reused", any(k.startswith("reindex:") for k in user_aggs.get("__objects__", {})))
                     ctx.probe("rechunk_helper", "rechunk" in op["api"])
                     ctx.probe("xarray_rechunk_helper", op["api"].startswith("xr_rechunk"))
